@@ -19,7 +19,7 @@ import numpy as np
 from harness.core import Ctx
 
 ID = "C17"
-LEAN_MODULES = ["GeoVerif.Props.C17"]
+LEAN_MODULES = ["GeoVerif.Props.C17", "GeoVerif.Props.C17Cache"]
 THEOREMS = [
     "GeoVerif.Grid.flatMap_const_get",
     "GeoVerif.Grid.block_index",
@@ -40,7 +40,19 @@ THEOREMS = [
     "GeoVerif.Grid.octree_covers",
     "GeoVerif.Grid.octree_once",
     "GeoVerif.Grid.cellsOfParts_spec",
+    "GeoVerif.Cache.cache_invalidated",
+    "GeoVerif.Cache.cache_table_nonvacuous",
+    "GeoVerif.Cache.clearsDirect_sound",
+    "GeoVerif.Cache.noStore_unchanged",
 ]
+
+
+def regenerate():
+    """T1: the setter table (event paths) and the list of classes whose centroids getter caches, from /repo's source."""
+    from harness.core import LEAN, REPO
+    from harness.translate import setters
+    return setters.generate(REPO, LEAN / "GeoVerif" / "Gen" / "Setters.lean")
+
 RULE = (
     "BlockModel (1-4 cells per axis, dyadic delimiters of either sign, explicit or default origin, rotations), Grid2D (1-5 x 1-5, "
     "rotation, dip, explicit or default origin), Octree (power-of-two counts up to 16, default cells), Curve part labelings of "
@@ -51,7 +63,7 @@ RULE = (
 ASSUMPTIONS = [
     "cos/sin are NumPy's (passed exactly to the model); products and sums are compared with relative tolerance 2^-40",
     "part labels derived from cells (Curve.parts getter) are checked by the oracle only",
-    "DrapeModel centroids are checked by the oracle (cache invalidation), not modelled",
+    "DrapeModel centroids are not modelled; their cache invalidation is covered by the table theorem and the probe",
 ]
 LEVEL_TEXT = (
     "Lean theorems for all grid shapes and sizes: block-model cell (i,j,k) sits at index k+i*nZ+j*nU*nZ and 2-D grid cell (i,j) at "
@@ -59,10 +71,14 @@ LEVEL_TEXT = (
     "the delimiter midpoints for any sign (centers_midpoint), uniform centres are (i+1/2)h, rotation/dip formulas (rotZ_norm, "
     "grid2d_centre_formula), the default octree covers every base cell exactly once whenever min(u,v,w) divides the counts "
     "(octree_covers, octree_once), curve segments from parts join consecutive vertices of one part only (cellsOfParts_spec). "
-    "Tied to the code by differential runs in exact rationals."
+    "Cached centres: by `decide +kernel` over the setter table regenerated from /repo's source on every run, every completing "
+    "setter path of every class whose centroids getter caches (BlockModel, Grid2D, Octree, DrapeModel - the list is regenerated "
+    "too) drops the cached centres, directly or through another setter that always does (cache_invalidated; clearsDirect_sound "
+    "says what a passing path does to an object), so the centres read after any edit are recomputed from the current attributes. "
+    "Tied to the code by differential runs in exact rationals and a cache probe on every such setter."
 )
-LEVEL_NOTE = "Trusted: Lean kernel (+ Mathlib's ring/linarith producing kernel-checked terms), harness, NumPy. Not proved: cos/sin, float rounding of products."
-TECHNIQUE = "Lean 4 proof (list indexing induction, ring arithmetic over Rat) on an executable model of centroids/octree/parts + exact-rational differential correspondence"
+LEVEL_NOTE = "Trusted: Lean kernel (+ Mathlib's ring/linarith producing kernel-checked terms), harness, the setter translator (AST abstraction, validated by the cache probe on the same setters), NumPy. Not proved: cos/sin, float rounding of products."
+TECHNIQUE = "Lean 4 proof (list indexing induction, ring arithmetic over Rat) on an executable model of centroids/octree/parts + translator (setter AST -> event paths) with `decide +kernel` over the regenerated table for cache invalidation + exact-rational differential correspondence"
 
 TOL = Fraction(1, 2 ** 40)
 
@@ -248,10 +264,21 @@ def cache_probe(ctx, ws):
         ("BlockModel", dict(u_cell_delimiters=np.r_[0.0, 1, 2], v_cell_delimiters=np.r_[0.0, 1], z_cell_delimiters=np.r_[0.0, -1, -3], origin=[0.0, 0, 0]),
          {"origin": [1.0, 2, 3], "rotation": 30.0, "u_cell_delimiters": np.r_[0.0, 2, 5], "v_cell_delimiters": np.r_[0.0, 4], "z_cell_delimiters": np.r_[0.0, -2, -3]}),
         ("Grid2D", dict(u_count=2, v_count=3, u_cell_size=1.0, v_cell_size=2.0, origin=[0.0, 0, 0]),
-         {"origin": [1.0, 2, 3], "rotation": 30.0, "dip": 45.0, "u_cell_size": 3.0, "v_cell_size": 0.5, "u_count": 4, "v_count": 2}),
+         {"origin": [1.0, 2, 3], "rotation": 30.0, "dip": 45.0, "u_cell_size": 3.0, "v_cell_size": 0.5, "u_count": 4, "v_count": 2,
+          "vertical": True}),
+        ("Grid2D", dict(u_count=2, v_count=3, u_cell_size=1.0, v_cell_size=2.0, origin=[0.0, 0, 0], rotation=30.0, vertical=True),
+         {"vertical": False, "dip": 30.0}),
         ("Octree", dict(u_count=4, v_count=4, w_count=2, u_cell_size=1.0, v_cell_size=1.0, w_cell_size=1.0, origin=[0.0, 0, 0]),
          {"origin": [1.0, 2, 3], "rotation": 30.0, "u_cell_size": 2.0, "v_cell_size": 3.0, "w_cell_size": 0.5}),
     ]
+    # every setter defined by a class that caches its centres must be in the probe (or be named here as covered elsewhere)
+    probed = {(c, a) for c, _, ed in specs for a in ed} | {("DrapeModel", "layers"), ("DrapeModel", "prisms")}
+    elsewhere = {("Octree", "octree_cells"), ("Octree", "u_count"), ("Octree", "v_count"), ("Octree", "w_count")}   # C03 / tests: counts change the cell table
+    for cname in ("BlockModel", "Grid2D", "Octree", "DrapeModel"):
+        for a, member in vars(getattr(objects, cname)).items():
+            if isinstance(member, property) and member.fset is not None and (cname, a) not in probed | elsewhere:
+                ctx.count("cache_probe_unprobed_setter:" + cname + "." + a)
+                out.append((f"{cname}.{a} has a setter the centroid-cache probe does not exercise", f"C17:cache-probe-incomplete:{cname}.{a}"))
     for cls, kw, edits in specs:
         for attr, val in edits.items():
             obj = getattr(objects, cls).create(ws, **kw)
@@ -262,6 +289,11 @@ def cache_probe(ctx, ws):
             fresh = getattr(objects, cls).create(ws, **kw2)
             ctx.count("cache_probe")
             a, b = np.asarray(obj.centroids), np.asarray(fresh.centroids)
+            if attr == "vertical" and val is False:
+                # switching the flag off keeps the dip the flag had forced (90): a freshly built flat grid is no reference;
+                # the centres must be those recomputed from the object's own current attributes
+                obj._centroids = None  # pylint: disable=protected-access
+                b = np.asarray(obj.centroids)
             if a.shape != b.shape or not np.allclose(a, b):
                 out.append((f"{cls}.{attr} setter leaves stale cached centroids", f"C17:cache:{cls}.{attr}"))
     # DrapeModel: layers / prisms
